@@ -107,7 +107,9 @@ claim("C07", "symx",
       "facets with shuffled list and rotated / reversed / arbitrarily ordered cycles (seeded scrambles, several per shape incl. cuboctahedron and a corner-cut "
       "cube); merge_faces on shuffled, mixed-winding triangulations. Claims: faces = hull facets, counter-clockwise from outside, unit outward normals, plane "
       "contains its face and all other vertices strictly inside, symmetric neighbours = shared edges, unique sorted edges, Euler, num_edges, simplices "
-      "triangulate the faces, dihedral cosine. Thorough: tetrahedron with 12 free coordinates through the constructor.",
+      "triangulate the faces, dihedral cosine. Thorough: tetrahedron with 12 free coordinates through the constructor. In addition the structure (facets, "
+      "orientation, unit outward equations, neighbours, edges, Euler) of all 290 tabulated solids (up to 120 vertices; index enumerated by z3) is compared "
+      "natively with an independent brute-force facet enumeration.",
       "reals not floats (A1); qhull/kabsch contract stubs; scrambles are a seeded finite sample; path budget",
       "DESIGN.md §6 C07")
 claim("C09", "symx",
@@ -142,7 +144,7 @@ claim("C13", "symx",
       "free in the thorough tier), placement-free base polygons and solids, curved shapes with free axes: circum-ball through every vertex, in-ball tangent "
       "to every edge / face plane from inside, centred balls centred at the exact centroid with the extreme vertex / face distance, and RuntimeError wherever "
       "the parameters violate the existence equation by 1 %. The residual test of the code is a polynomial branch condition through the exact lstsq stub. "
-      "minimal_bounding_*: only coxeter's wrapper around miniball (exact contract stub on concrete points), incl. its retry loop under an environment "
+      "minimal_bounding_*: coxeter's wrapper around miniball (exact contract stub on concrete points) must return the exact smallest enclosing ball (brute-force oracle; incl. solids whose circumsphere is not minimal), incl. its retry loop under an environment "
       "model (the first k miniball calls raise LinAlgError, rowan.random.rand returns chosen rational unit quaternions, exact quaternion algebra).",
       "reals not floats (A1); lstsq/miniball/qhull/kabsch contract stubs; minimality of the miniball result is third-party code (outside)",
       "DESIGN.md §6 C13")
@@ -159,7 +161,7 @@ claim("C20", "symx+crosshair",
       "All seven writers run on meshes with mixed face degrees (corner-cut cube, frustum, L prism; Polyhedron and ConvexPolyhedron) placed by a free scale "
       "and translation; a symbolic coordinate prints as a token, independent parsers per format must recover a token denoting the same scalar at every "
       "vertex slot, the same cycles (index base), declared counts equal to the data, STL fan triangles with outward normals and the polyhedron's vertices; "
-      "the shape's whole stored state (vertices, faces, cached centroid / volume / equations) and derived answers are unchanged. CrossHair: save() dispatches the seven strings and raises ValueError for any other string.",
+      "the shape's whole stored state (vertices, faces, cached centroid / volume / equations) and derived answers are unchanged; scale free in [1e-5, 1e5]. CrossHair: save() dispatches the seven strings and raises ValueError for any other string.",
       "reals not floats (A1); decimal rendering of doubles is outside the encoding (bit-exact read-back only on the float64 code at the path samples)",
       "DESIGN.md §6 C20")
 
